@@ -210,7 +210,7 @@ def two_pass_term(case, va1, p1, stored2, p2):
     s2 = stored2
     if s2 is not None and patched:
         s2 = placeholder_annotation(s2)
-    return (f"C4Two {cfg} {cjson(va1['t'])} {cjson(live)} {copt(ann, cjson)} {r1} {c1} "
+    return (f"C4Two {cfg} {cjson(va1['t'])} {cjson(live)} {B.c_ann(pa)} {r1} {c1} "
             f"{copt(s2, cjson)} {r2} {c2}")
 
 
